@@ -105,16 +105,15 @@ Proof.
       destruct (IH s1 p1 HR') as [p' [Hh HR2]].
       destruct r as [cl|m]; destruct (hrun g s1 ops) as [s2 xs]; cbn [fst snd] in *; exists p'; split; auto.
       * cbn [routed_ok]. rewrite Z.eqb_refl, unary_ok_sound. exact Hh.
-      * cbn [routed_ok not_found_tr t_status]. unfold not_found_code. rewrite Z.eqb_refl.
-        change (mkTr None [] None (Some (5, m)) false 0) with (mkTr None [] None (Some (5, m)) false 0).
-        rewrite is_prefix_tr_refl. exact Hh.
+      * unfold routed_ok, not_found_tr, not_found_code, is_prefix_tr, status_eqb. cbn.
+        rewrite String.eqb_refl. cbn. exact Hh.
     + pose proof (get_refines g n s p HR) as [Hr HR'].
       destruct (get g n s) as [s1 r] eqn:E1. destruct (pstep g p (OGet n)) as [p1 y] eqn:E2. cbn [fst snd] in *. subst y.
       destruct (IH s1 p1 HR') as [p' [Hh HR2]].
       destruct r as [cl|m]; destruct (hrun g s1 ops) as [s2 xs]; cbn [fst snd] in *; exists p'; split; auto.
       * cbn [routed_ok]. rewrite Z.eqb_refl, stream_ok_sound. exact Hh.
-      * cbn [routed_ok not_found_tr t_status]. unfold not_found_code. rewrite Z.eqb_refl.
-        rewrite is_prefix_tr_refl. exact Hh.
+      * unfold routed_ok, not_found_tr, not_found_code, is_prefix_tr, status_eqb. cbn.
+        rewrite String.eqb_refl. cbn. exact Hh.
 Qed.
 
 (* the judge's property predicate holds of the model on every history *)
